@@ -5,7 +5,7 @@
 //   <model> <np> p0..  <ns> u0..
 //   common params: p0 = incident kinetic energy [MeV], p1..p3 = incident
 //   direction, p4 = allocator size before the call, p5 = allocator capacity,
-//   p6 = production cut [MeV] (electron or gamma, whichever the model uses),
+//   p6 = electron production cut [MeV], p10 = gamma cut, p11 = positron cut (default: same as p6),
 //   p7 = variant (particle / flags), p8 = material index, p9 = element
 //   component index.
 // stdout, one line per case:
@@ -14,6 +14,7 @@
 // pid codes: -1 invalid, 0 e-, 1 e+, 2 gamma, 3 mu-, 4 mu+ (InteractorHostTestBase order)
 #include "../../../harness/common.hh"
 #include <map>
+#include <tuple>
 
 #include "corecel/cont/Span.hh"
 #include "corecel/data/StackAllocator.hh"
@@ -75,7 +76,9 @@ struct Case
     Real3 dir() const { return {p[1], p[2], p[3]}; }
     int size() const { return int(p[4]); }
     int cap() const { return int(p[5]); }
-    double cut() const { return p[6]; }
+    double cut() const { return p[6]; }   // electron production cut
+    double cut_g() const { return p.size() > 10 ? p[10] : p[6]; }   // gamma cut
+    double cut_p() const { return p.size() > 11 ? p[11] : p[6]; }   // positron cut
     int variant() const { return int(p[7]); }
     int mat() const { return p.size() > 8 ? int(p[8]) : 0; }
     int elcomp() const { return p.size() > 9 ? int(p[9]) : 0; }
@@ -153,21 +156,25 @@ class Fix : public InteractorHostTestBase
         emass = pp.get(id_e).mass();
     }
 
-    //! (re)build cutoffs: same energy cut for e-, e+ and gamma in all materials
-    void set_cut(double cut)
+    //! (re)build cutoffs: per-particle energy cuts (e-, gamma, e+), same in all materials
+    void set_cut(double cut, double cut_g, double cut_p)
     {
-        if (this->have_cut_ && cut == cut_)
+        if (this->have_cut_ && cut == cut_ && cut_g == cut_g_ && cut_p == cut_p_)
             return;
         CutoffParams::Input ci;
         ci.materials = this->material_params();
         ci.particles = this->particle_params();
-        CutoffParams::MaterialCutoffs mc(this->material_params()->size(),
-                                         ParticleCutoff{MevEnergy{cut}, 0.1});
-        ci.cutoffs.insert({pdg::electron(), mc});
-        ci.cutoffs.insert({pdg::positron(), mc});
-        ci.cutoffs.insert({pdg::gamma(), mc});
+        auto mc = [this](double e) {
+            return CutoffParams::MaterialCutoffs(this->material_params()->size(),
+                                                 ParticleCutoff{MevEnergy{e}, 0.1});
+        };
+        ci.cutoffs.insert({pdg::electron(), mc(cut)});
+        ci.cutoffs.insert({pdg::positron(), mc(cut_p)});
+        ci.cutoffs.insert({pdg::gamma(), mc(cut_g)});
         this->set_cutoff_params(ci);
         cut_ = cut;
+        cut_g_ = cut_g;
+        cut_p_ = cut_p;
         have_cut_ = true;
     }
 
@@ -187,7 +194,7 @@ class Fix : public InteractorHostTestBase
         dir_ = c.dir();
         this->set_inc_particle(pdg, MevEnergy{c.energy()});
         this->set_material(names_.at(c.mat()));
-        this->set_cut(c.cut());
+        this->set_cut(c.cut(), c.cut_g(), c.cut_p());
     }
     CutoffView cutoff_view(Case const& c)
     {
@@ -208,7 +215,7 @@ class Fix : public InteractorHostTestBase
     std::shared_ptr<RelativisticBremModel> rb_, rb_lpm_;
     std::shared_ptr<CombinedBremModel> cb_;
     std::shared_ptr<LivermorePEModel> lpe_;
-    std::map<std::pair<int, double>, std::shared_ptr<AtomicRelaxationParams>> relax_;
+    std::map<std::tuple<int, double, double>, std::shared_ptr<AtomicRelaxationParams>> relax_;
     HostVal<AtomicRelaxStateData> relax_states_;
     HostRef<AtomicRelaxStateData> relax_states_ref_;
     std::shared_ptr<CoulombScatteringModel> coulomb_;
@@ -225,7 +232,7 @@ class Fix : public InteractorHostTestBase
     }
 
   private:
-    double cut_{-1};
+    double cut_{-1}, cut_g_{-1}, cut_p_{-1};
     bool have_cut_{false};
 };
 
@@ -449,7 +456,7 @@ Interaction run_case(Case const& c, verif::ReplayEngine& rng, Fix*& used)
                 f.lpe_->host_ref(), relaxation, el, f.particle_track(), cv, f.dir_, f.secondary_allocator());
             return interact(rng);
         }
-        auto& relax = f.relax_[{v, c.cut()}];
+        auto& relax = f.relax_[std::make_tuple(v, c.cut(), c.cut_g())];
         if (!relax)
         {
             AtomicRelaxationReader rd(data_path.c_str(), data_path.c_str());
